@@ -388,6 +388,46 @@ def rule_tablefn(facts, rule="C12-TABLEFN", TF="glaredb_core::functions::table::
 
 
 
+# unary functions whose exact result on an integer / decimal argument is again an integer / decimal: when the function set lacks a
+# signature for those types, the implicit cast picks Float64 and the result is inexact above 2^53 (abs(-9007199254740993) = ...992)
+EXACT_UNARY = {
+    "FUNCTION_SET_ABS": "abs",
+    "FUNCTION_SET_NEGATE": "unary minus",
+    "FUNCTION_SET_CEIL": "ceil",
+    "FUNCTION_SET_FLOOR": "floor",
+    "FUNCTION_SET_ROUND": "round",
+    "FUNCTION_SET_TRUNC": "trunc",
+}
+
+
+def rule_intsig(facts):
+    """Integer and decimal arguments must not be routed through Float64 by functions whose result on them is exactly representable in
+    the argument's own type. Decided on the registry: each function set of the frozen table has a one-argument signature T -> T for
+    the signed 64/128-bit integers and for both decimal widths."""
+    r = RuleResult("C12-INTSIG", "abs, unary minus, ceil, floor, round, trunc have exact signatures for Int64/Int128 and Decimal64/Decimal128 (no detour through Float64)", floor=24)
+    consts = {c["id"]: c for c in facts.records("const")}
+    sets = {}
+    for row in facts.records("row", "glaredb_core"):
+        nm = row["const"].rsplit("::", 1)[-1]
+        if nm in EXACT_UNARY and "RawScalarFunction" in row["ctor"]:
+            sig = signature_of(row, consts)
+            sets.setdefault(nm, {"rows": [], "file": row["file"], "line": row["line"], "const": row["const"]})["rows"].append(sig)
+    for nm, what in EXACT_UNARY.items():
+        if nm not in sets:
+            r.missing_anchor(nm)
+            continue
+        ent = sets[nm]
+        have = {s_[0][0] for s_ in ent["rows"] if s_ and len(s_[0]) == 1 and s_[0][0] == s_[2]}
+        for t in ("Int64", "Int128", "Decimal64", "Decimal128"):
+            ok = t in have
+            r.inst({"function": what, "type": t, "exact_signature": ok}, ok)
+            if not ok:
+                r.violate(ent["const"], f"no-exact-signature:{t}", f"{what}() has no {t} -> {t} signature: a {t} argument is implicitly cast to Float64 and the result is inexact "
+                          "beyond 2^53", ent["file"], ent["line"])
+    return r
+
+
+
 def run(ctx):
     facts = ctx["facts"]
     consts = {c["id"]: c for c in facts.records("const")}
@@ -442,7 +482,7 @@ def run(ctx):
     # An operand that keeps a different scale is added as if it had the common scale: a silently wrong sum.
     deccast = rule_elide(facts, rule="C12-DECCAST", only=lambda fid: "::functions::" in fid, floor=6)
     return [r, rule_errpath(facts, db, int_rows), rule_errstate(facts), rule_decfit(facts), deccast, rule_tablefn(facts), rule_narrowing(facts, db, int_rows),
-            rule_tablefn(facts, "C12-CMPBIND", "glaredb_core::functions::scalar::builtin::comparison::", "the comparison operators' bind and kernels", 1)]
+            rule_tablefn(facts, "C12-CMPBIND", "glaredb_core::functions::scalar::builtin::comparison::", "the comparison operators' bind and kernels", 1), rule_intsig(facts)]
 
 
 CLAIM = {
